@@ -2,6 +2,8 @@ from __future__ import annotations
 
 import functools
 
+import numpy as np
+
 from dask.dataframe.accessor import _bind_method, _bind_property, maybe_wrap_pandas
 from dask.dataframe.dask_expr._expr import Elemwise, Expr
 from dask.dataframe.dispatch import make_meta, meta_nonempty
@@ -106,6 +108,12 @@ class FunctionMap(Elemwise):
         args = [
             meta_nonempty(op._meta) if isinstance(op, Expr) else op for op in self._args
         ]
+        if self.accessor == "str" and args[0].dtype == object:
+            # The non-empty meta of an object column does not hold strings, the
+            # string methods would return only missing values (float64) for it.
+            # Use a string and missing values like the non-empty meta of str
+            first = np.arange(len(args[0])) == 0
+            args[0] = args[0].where(first, np.nan).where(~first, "a")
         return make_meta(self.operation(*args, **self._kwargs))
 
     @staticmethod
